@@ -94,6 +94,14 @@ impl<L: Language, N: Analysis<L>> EGraph<L, N> {
         c.slots = cap.clone();
         let generators = c.group.generators();
         let _ = c;
+        let _ = final_cap;
+
+        // A symmetry that moves a slot of `cap` out of `cap` cannot be restricted to `cap`.
+        // It shows that this slot is redundant as well (the orbit of a redundant slot is redundant):
+        // such symmetries are re-asserted below as equations of the shrunk class with itself.
+        let (generators, broken): (HashSet<ProvenPerm>, HashSet<ProvenPerm>) = generators
+            .into_iter()
+            .partition(|pp| cap.iter().all(|x| cap.contains(&pp.elem[*x])));
 
         let restrict_proven = |proven_perm: ProvenPerm| {
             if CHECKS {
@@ -130,6 +138,15 @@ impl<L: Language, N: Analysis<L>> EGraph<L, N> {
         c.group = Group::new(&identity, generators);
 
         self.touched_class(from.id, PendingType::Full);
+
+        for pp in broken {
+            let l = self.mk_sem_identity_applied_id(id);
+            // an earlier iteration may have shrunk the class further.
+            let r = self.mk_sem_applied_id(id, self.slots(id).iter().map(|x| (*x, pp.elem[*x])).collect());
+            #[allow(unused)]
+            let prf = ghost!(self.disassociate_proven_eq(pp.proof.clone()));
+            self.union_internal(&l, &r, prf);
+        }
     }
 
     pub(crate) fn rebuild(&mut self) {
